@@ -1,9 +1,11 @@
 import SaphyrModel.Emitter
+import SaphyrModel.Proofs.DqDecode
 /-! # C09 — Emit then load (scalar layer)
 
-Component theorems about the emitter's decisions. The structural round trip
-`load (emit t) = [t]` for nested collections is not proved; the check evaluates it on the
-implementation for every explored tree. -/
+Component theorems about the emitter's decisions, and the scanner half of the round trip for quoted
+strings: the double-quoted scanner reads back exactly the string `escape_str` wrote, for every
+string. The structural round trip `load (emit t) = [t]` for nested collections is not proved; the
+check evaluates it on the implementation for every explored tree. -/
 namespace SaphyrModel.C09
 open ProtoE ProtoR
 
@@ -66,6 +68,28 @@ theorem float_text_is_not_integer_like (cls : FloatClass) (disp : Str) :
   | posInf => right; simp
   | negInf => right; simp
   | nan => right; simp
+
+/-- **A quoted string is read back as itself.** For every string `t` (any characters: quotes,
+    backslashes, control characters, line breaks, runs of spaces, non-ASCII), in every scanner state
+    on a string input whose cursor stands in front of `escape_str t` followed by anything, with the
+    quote at or beyond the current indent: `scan_flow_scalar` cannot panic, and whenever it returns a
+    token that token is a double-quoted scalar whose value is exactly `t` and which starts at the
+    opening quote. (An error is possible only from what follows the closing quote: the trailing-content
+    check or a comment without a separating space; see `SaphyrModel.Sc.scanFlowScalar_escaped`,
+    which reduces the scan to that check with `t` already decoded.) -/
+theorem quoted_string_rescans (s : SaphyrModel.Sc.Sc) (hk : s.inp.kind = .str) (t rest : Str)
+    (hiter : s.inp.iter = escapeStr t ++ rest)
+    (hind : s.indent ≤ (s.mark.col + 1 : Nat)) :
+    match SaphyrModel.Sc.scanFlowScalar false s with
+    | .ok (tok, _) => tok.ty = .scalar .doubleQuoted t ∧ tok.span.start = s.mark
+    | .err _ => True
+    | .panic _ => False :=
+  SaphyrModel.Sc.scanFlowScalar_escaped_value s hk t rest
+    (by rw [hiter]; simp [escapeStr]) hind
+
+/-- the statement is about a non-trivial function: what `escape_str` writes for a string with a
+    quote, a backslash, a line break, a control character and a double space -/
+example : escapeStr "a\"b\\ \n\x01  c".toList = "\"a\\\"b\\\\ \\n\\u0001  c\"".toList := by decide
 
 example : needQuotes "0o17".toList = true := by decide
 example : needQuotes "+.inf".toList = true := by decide
